@@ -1,12 +1,13 @@
 Require Import Bezier.
-From Coq Require Import QArith Qround ZArith.
+From Coq Require Import QArith Qround ZArith NArith.
 Require Import Extraction ExtrOcamlBasic.
 Extraction Blacklist List String Int.
 Extraction "../ocaml/extracted/c15.ml"
   run_call run commands instr_call sec_ctrl sec_start sec_end penult
   decasteljau bernstein step_nan_at step_rule_nan_b deriv1 deriv2 ctrl_span_lt_quarter
   seg_closer_than q_seg_closer grid_round on_grid
+  decasteljauZ round_shift circle_h ell_map_h h_seg_closer
   stereo ell_affine aff_apply aff_unapply aff_det norm2 inner cross padd psub pscale
   rectangle_pts cross_pts
   Qplus Qminus Qmult Qdiv Qinv Qopp Qred Qle_bool Qeq_bool Qcompare inject_Z Qfloor Qceiling
-  Z.add Z.sub Z.mul Z.opp Z.leb Z.ltb Z.eqb Z.abs Z.compare Z.div Z.pow_pos Z.of_nat.
+  Z.add Z.sub Z.mul Z.opp Z.leb Z.ltb Z.eqb Z.abs Z.compare Z.div Z.pow_pos Z.of_nat Z.shiftl Z.shiftr Z.modulo Z.log2 N.add.
